@@ -10,7 +10,8 @@ from ..core import enc, dec
 from .. import dbio
 from . import src_common as S
 
-FORMS = ["path", "gz", "string", "list", "generator", "iter", "map", "dataiterator", "featuredb"]
+FORMS = ["path", "gz", "string", "list", "generator", "iter", "map", "dataiterator", "featuredb", "url", "url_gz", "path_nonl", "url_gz_nonl"]
+# url*: file:// URLs of the same files (the URL reader has its own line splitter); *_nonl: the same text WITHOUT a newline after the last line
 LOOK = ["featuretype", "chrom", "attribute_keys", "feature_count"]
 LOOK2 = ["start", "featuretype"]        # any attribute of the Feature objects may be tallied: coordinates too (0 is a value like any other)
 
@@ -24,6 +25,14 @@ def make_input(form, path, text, cl, store):
         return path
     if form == "gz":
         return path + ".gz"
+    if form == "url":
+        return "file://" + path
+    if form == "url_gz":
+        return "file://" + path + ".gz"
+    if form == "path_nonl":
+        return path + ".nonl"
+    if form == "url_gz_nonl":
+        return "file://" + path + ".nonl.gz"
     if form == "string":
         return text
     objs = [feature_from_line(l) for l in lines]
@@ -60,6 +69,10 @@ def run_case(args):
             f.write(text)
         with gzip.open(path + ".gz", "wt") as f:
             f.write(text)
+        with open(path + ".nonl", "w") as f:
+            f.write(text[:-1] if text.endswith("\n") else text)
+        with gzip.open(path + ".nonl.gz", "wt") as f:
+            f.write(text[:-1] if text.endswith("\n") else text)
         if want:
             with S.quiet():
                 store["db"] = gffutils.create_db(path, ":memory:")
@@ -160,7 +173,7 @@ def run_case(args):
     except Exception as e:  # noqa
         fails.append(("raised:" + type(e).__name__, str(e)[:200]))
     finally:
-        for p in (path, path + ".gz"):
+        for p in (path, path + ".gz", path + ".nonl", path + ".nonl.gz"):
             if os.path.exists(p):
                 os.unlink(p)
     return fails
